@@ -71,9 +71,11 @@ def catalogue(tier: str):
     add('prev-f2-ra0-reload', 'prev', 2, reloads=1,
         scheduling={'runahead limit': 'P0'}, drop_tasks=[])
     if tier == 'thorough':
-        add('chain2-f2-cmd2', 'chain2', 2, helpers=cmds + [
+        add('chain2-f1-cmd2', 'chain2', 1, helpers=cmds + [
+            ('release', {'tasks': ['1/b']})], helper_budget=2)
+        add('chain2-f2-cmd', 'chain2', 2, helpers=cmds + [
             ('hold', {'tasks': ['2/a']}), ('release', {'tasks': ['1/b']}),
-            ('set_hold_point', {'point': '1'})], helper_budget=2)
+            ('set_hold_point', {'point': '1'})], helper_budget=1)
         add('fanout-f1-qlimit1-reload', 'fanout', 1, reloads=1,
             queues={'q': {'limit': 1, 'members': ['a', 'b', 'c']}},
             add_edges=[('b', 0, 'c')], drop_tasks=['a', 'c'])
@@ -82,8 +84,9 @@ def catalogue(tier: str):
             helpers=[('hold', {'tasks': ['1/a']}),
                      ('hold', {'tasks': ['1/b']})], helper_budget=1)
         add('chain2-f2-reload', 'chain2', 2, reloads=1)
-        add('prevb-f2-reload2', 'prevb', 2, reloads=2,
+        add('prevb-f2-ra0-reload', 'prevb', 2, reloads=1,
             scheduling={'runahead limit': 'P0'})
+        add('chain2-f1-reload2', 'chain2', 1, reloads=2, drop_tasks=['b'])
         win = [('set_graph_window_extent', {'n_edge_distance': 2})]
         add('chain3-f2-window', 'chain3', 2, helpers=win, helper_budget=1)
         add('prev-f3-window', 'prev', 3, helpers=win + [
@@ -131,7 +134,7 @@ def run(ctx: Ctx) -> Result:
     COUNTS27.collect(ctx.scratch)
     st = explore_all(
         ctx, [make_factory(s, ctx.tier) for s in specs],
-        max_states=ctx.pick(6000, 60000), max_seconds=ctx.pick(110, 1500))
+        max_states=ctx.pick(6000, 60000), max_seconds=ctx.pick(110, 2400))
     counts = COUNTS.collect(ctx.scratch)
     COUNTS27.collect(ctx.scratch)
     if not st.error and not st.violations:
